@@ -112,6 +112,7 @@ class NativeMaster:
         self.max_data_wait = 0
         self.use_last = False
         self.rdata_log = []
+        self._cmd_valid = 0
         self.cmd_stalls = 0
         self.wdata_stalls = 0
         self.wdata_taken = []      # (data, wemask) in the order the beats were taken
